@@ -1180,7 +1180,12 @@ fn read_code<C: CodeVisitor>(
 	}
 
 	if let Some(table) = local_variable_table {
-		code_visitor.visit_local_variables(table)?;
+		// A visitor interested in only one of the two tables sees only a part of the entries. As in `Code::accept`, it is
+		// not told about a table that has no entry for it: the tree keeps one list for both tables, so replaying a tree
+		// cannot tell which of the two attributes an empty list came from.
+		if !table.is_empty() || (interests.local_variable_table && interests.local_variable_type_table) {
+			code_visitor.visit_local_variables(table)?;
+		}
 	}
 
 	Ok(code_visitor)
